@@ -646,6 +646,8 @@ func refusedFirstPacket(kind string) []byte {
 		return ok("MQTT", 4, 2, "\x1f")
 	case "idempty0":
 		return ok("MQTT", 4, 0, "")
+	case "stall-halfconnect": // the first seven bytes of a valid CONNECT, and then nothing for a while
+		return ok("MQTT", 4, 2, "rk")[:7]
 	case "auth":
 		return ok("MQTT", 4, 2, "rk")
 	case "auth-badpw": // the user name of accepted logins with a wrong password, without one, and with the client id of accepted connections
@@ -964,6 +966,32 @@ func runBehaviour(steps []bStep, auth string, maxqos int, res *Result) (result *
 					return &brokerMismatch{where + ": connection accepted (CONNACK) but never admitted", "C11"}
 				}
 				m.startReader()
+			} else if strings.HasPrefix(a.Kind, "stall") {
+				// a connection that is stuck in the middle of its CONNECT is nobody's business but its own: meanwhile
+				// another client connects (CONNACK 0), disconnects, and only then the stalled one goes away
+				select {
+				case <-werr:
+				case <-time.After(r.tmo):
+				}
+				pc, ps := net.Pipe()
+				if err := service.VerifServe(r.svr, ps); err != nil {
+					return &brokerMismatch{where + ": VerifServe: " + err.Error(), "INFRA"}
+				}
+				go pc.Write(connectBytes(bAct{K: "probe", Clean: true, Ka: 60}))
+				p, err := readPkt(pc, r.tmo)
+				if err != nil || p.first != 0x20 || len(p.body) != 2 || p.body[1] != 0 {
+					pc.Close()
+					cl.Close()
+					return &brokerMismatch{fmt.Sprintf("%s(%s): while a connection is stuck in the middle of its CONNECT, another client's CONNECT is not answered with CONNACK 0 (%v %x)", where, a.Kind, err, p.body), "C11"}
+				}
+				pc.Write([]byte{0xe0, 0})
+				time.Sleep(5 * time.Millisecond)
+				pc.Close()
+				time.Sleep(20 * time.Millisecond)
+				cl.Close()
+				time.Sleep(20 * time.Millisecond)
+				m.closed = true
+				skipBarrier[a.C] = true
 			} else if strings.HasPrefix(a.Kind, "abort") {
 				// the client gives up right after its CONNECT: it closes without reading, the CONNACK cannot be written
 				select {
